@@ -26,7 +26,7 @@ for i in ids:
         continue
     m["checks"].append({
         "property_id": i, "quick_cmd": "bin/check %s quick" % i, "thorough_cmd": "bin/check %s thorough" % i,
-        "evidence_file": "evidence/%s.json" % i, "replay_cmd_template": "cat {path}", "engine": "coq",
+        "evidence_file": "evidence/%s.json" % i, "replay_cmd_template": "bin/replay {path}", "engine": "coq",
         "level_claimed": {"category": c.get("category", "proof"), "text": c["text"], "design_ref": c.get("ref", "DESIGN.md section 5 " + i)},
         "level_note": c["note"], "technique": c.get("technique", "Rocq/Coq proof over an executable Gallina model + differential correspondence with the Go code")})
 json.dump(m, open(os.path.join(V, "MANIFEST.json"), "w"), indent=1)
